@@ -227,7 +227,7 @@ def src(n):
         return f"{callee}({args_src(a[1])})"
     if t == "pipe":
         f = a[0]
-        callee = src(f) if f["n"] == "var" else paren(src(f))
+        callee = src(f) if f["n"] in ("var", "member") else paren(src(f))       # x !> o->m(a): the member form unparenthesised
         return f"{operand(a[1][0]['a'][0])} !> {callee}({args_src(a[1][1:])})"
     if t == "method":
         return f"{operand(a[0])}->{n['s']}({args_src(a[1])})"
